@@ -35,6 +35,8 @@ type runner struct {
 	tagKeyIDs []int
 	// (shard, metricId, tagset) of created series, for the recovery scan
 	seriesSeen map[nameKey][3]int
+	// big-bucket region: (tag key, first name, count) -> first id
+	ranges map[[3]int]uint32
 }
 
 func newRunner(c *core.Ctx, dbName string, nShards, maxSeries int) (*runner, error) {
@@ -138,6 +140,58 @@ func (r *runner) tagValue(tagKeyID, v int) (uint32, bool) {
 		}
 	}
 	return id, ok
+}
+
+// tvRange = GenTagValueID for the count names lo, lo+1, … of one tag key (one dictionary bucket), in a row.
+// Asked for the first time the names are new and get consecutive ids; asked again (after a flush, after a
+// reopen) every name must answer with the id it got.
+func (r *runner) tvRange(tagKeyID, lo, count int) {
+	op := fmt.Sprintf("tvrange %d %d %d", tagKeyID, lo, count)
+	key := [3]int{tagKeyID, lo, count}
+	prev, had := r.ranges[key]
+	var base uint32
+	changed, changedAt, changedID := 0, -1, uint32(0)
+	out := r.guard(op, func() string {
+		res := ""
+		for k := 0; k < count; k++ {
+			id, err := r.s.genTagValue(tagKeyID, lo+k)
+			if err != nil {
+				return fmt.Sprintf("range error at=%d %s", k, errKind(err))
+			}
+			if k == 0 {
+				base = id
+			}
+			if had && id != prev+uint32(k) {
+				if changed == 0 {
+					changedAt, changedID = k, id
+				}
+				changed++
+			}
+			if id != base+uint32(k) && res == "" {
+				res = fmt.Sprintf("range broken at=%d id=%d base=%d", k, id, base)
+			}
+		}
+		if res != "" {
+			return res
+		}
+		return fmt.Sprintf("range base=%d n=%d", base, count)
+	})
+	if changed > 0 {
+		r.c.Fail(r.o.tag+"stable-tagvalue", fmt.Sprintf("%s: %d of the %d tag values of tag key %d answer with another id than before; first: %q had id %d, now %d",
+			op, changed, count, tagKeyID, tagValString(lo+changedAt), prev+uint32(changedAt), changedID))
+	}
+	if !had && strings.HasPrefix(out, "range base=") {
+		if r.ranges == nil {
+			r.ranges = map[[3]int]uint32{}
+		}
+		for k2, b2 := range r.ranges { // ids are unique across tag keys (one counter)
+			if base < b2+uint32(k2[2]) && b2 < base+uint32(count) {
+				r.c.Fail(r.o.tag+"injective-tagvalue", fmt.Sprintf("%s: ids %d.. overlap the ids %d.. of tvrange %v", op, base, b2, k2))
+			}
+		}
+		r.ranges[key] = base
+	}
+	r.c.Branch("gen-tagvalue-range")
 }
 
 func (r *runner) tagsetID(tags []kv) int {
@@ -468,6 +522,10 @@ func (area) Run(c *core.Ctx) error {
 			err = witnessMemdbRace(c, db)
 		case 17:
 			err = memdbBarrierRegion(c, db)
+		case 18:
+			err = witnessBigBucket(c, db)
+		case 19:
+			err = memdbWorkerRegion(c, db)
 		default:
 			err = randomCase(c, rng, db)
 		}
